@@ -21,6 +21,13 @@ calls raise, the state of the object, the message and the rebuilt object are com
 Model/C15FF.lean (op `ffcp`), the rest (payload circuits, value tables, `config_modes`, `configure`, the
 derived flags of the enclosing experiment, one Parameter object per name) by the direct oracle.
 
+The text formats (states with annotations, state vectors, the three distributions, sample lists) are compared
+character by character with Model/C15Text.lean (`c15_text.py`: abstract syntax read through the object's API, model
+writer vs payload, model reader vs rebuilt object, damaged / respelled texts for both readers); post-selection
+expressions are generated as syntax trees (`c15_ps.py`, Model/C15PS.lean); dict/list trees with object keys and every
+form of `compress` (`c15_tree.py`, Model/C15Tree.lean); FFConfigurator value tables and the 32-bit float conversion
+(`c15_ffv.py`, Model/C15F32.lean, Model/C15FF.lean namespace FFC).
+
 A failing (iii) is a `violation`; a disagreement with the model while (iii) holds is `broken`.
 A malformed stream (tampered messages) ties the rejection branches of the readers to the model.
 """
